@@ -58,7 +58,7 @@ def gen_chain(ctx: ShardCtx) -> dict:
     rng = ctx.rng
     manifest = rng.choice(TL_TEMPLATES)
     params, now = W.live_params(rng, manifest, True, manifest != 'manifest_a.mpd', allow_events=False,
-                                plus_offsets=False)
+                                plus_offsets=True)
     params['timeline'] = '1'
     params.pop('patch', None)
     if manifest == 'hand_made.mpd' and rng.random() < 0.6:
